@@ -23,6 +23,9 @@
  *        the exact per-short-block budget, which vorbis_bitrate_init rounds to an integer number of bits (rint): the hard limit
  *        the manager enforces is quantised by at most half a bit per short block.  Stated as an assumption of the check.
  *   internal: 0 <= bms.minmax_reservoir <= R after every packet (R >= 7 in all E2 cases)
+ *   installed == configured: ci->bi.{max,min}_rate, reservoir_bits and bms.{max,min}_bitsper must carry the limits configured
+ *   through the control interface; otherwise VIOL kind=limit_not_installed_{min|max|reservoir}, and the run oracle is still
+ *   evaluated against the CONFIGURED limits (run_oracle=...) to show the shortfall/excess in the emitted packets themselves.
  *   truncation (packet shorter than the chosen blob as analysis produced it) only if the choice is blob 0 and blob 0 overflows
  *   the allowance; padding bytes (beyond the analysis output) are all zero.
  */
@@ -46,7 +49,7 @@ static void on_alarm(int s){ char b[64]; int n=snprintf(b,sizeof(b),"%ld TIMEOUT
 static void run_case(long idx,long rate,int ch,long tmplk,long maxk,long mink,long avgk,const char *resmode,const char *biasmode,const char *sig,long nsamp){
   vorbis_info vi; vorbis_comment vc; vorbis_dsp_state vd; vorbis_block vb; ogg_packet op; struct ovectl_ratemanage2_arg ai;
   int ret,eos=0,n=0,i,j; long done=0,chunk=1024; long R,maxr,minr,bs[2],hs,spl; double bias;
-  long ntrunc=0,npad=0,nonmono=0,hit0=0,hitfull=0,minres,maxres,nshort=0,nlong=0,limited=0; const char *viol=NULL; char det[400]; det[0]=0;
+  long ntrunc=0,npad=0,nonmono=0,hit0=0,hitfull=0,minres,maxres,nshort=0,nlong=0,limited=0; const char *viol=NULL,*notinst=NULL; char det[400],ndet[400]; det[0]=0; ndet[0]=0;
   codec_setup_info *ci; bitrate_manager_state *bm; private_state *ps;
   vorbis_info_init(&vi);
   ret=vorbis_encode_setup_managed(&vi,ch,rate,-1,tmplk*1000,-1);
@@ -70,9 +73,15 @@ static void run_case(long idx,long rate,int ch,long tmplk,long maxk,long mink,lo
   { ogg_packet h1,h2,h3; vorbis_analysis_headerout(&vd,&vc,&h1,&h2,&h3); }
   ci=(codec_setup_info*)vi.codec_setup; ps=(private_state*)vd.backend_state; bm=&ps->bms;
   bs[0]=ci->blocksizes[0]; bs[1]=ci->blocksizes[1]; hs=bs[0]>>1; spl=bs[1]/bs[0];
-  if(!bm->managed||ci->bi.reservoir_bits!=R||ci->bi.max_rate!=maxr||ci->bi.min_rate!=minr){
-    printf("%ld cfgerr internal managed=%d R=%ld/%ld max=%ld/%ld min=%ld/%ld\n",idx,bm->managed,ci->bi.reservoir_bits,R,ci->bi.max_rate,maxr,ci->bi.min_rate,minr);
-    goto done;
+  /* A configured hard limit (or reservoir) that does not reach the rate manager is a violation of the property, not a harness
+     error: the encode goes on without the internal oracles and every run is judged against the CONFIGURED limits. */
+  {
+    long Mc=(long)rint(1.*maxr*hs/rate),mc=(long)rint(1.*minr*hs/rate);
+    if(minr>0&&(!bm->managed||ci->bi.min_rate!=minr||bm->min_bitsper!=mc))notinst="min";
+    else if(maxr>0&&(!bm->managed||ci->bi.max_rate!=maxr||bm->max_bitsper!=Mc))notinst="max";
+    else if(!bm->managed||ci->bi.reservoir_bits!=R)notinst="reservoir";
+    if(notinst)sprintf(ndet,"configured max=%ld min=%ld R=%ld; installed managed=%d max_rate=%ld min_rate=%ld reservoir_bits=%ld max_bitsper=%ld min_bitsper=%ld",
+                       maxr,minr,R,bm->managed,ci->bi.max_rate,ci->bi.min_rate,ci->bi.reservoir_bits,bm->max_bitsper,bm->min_bitsper);
   }
   minres=maxres=bm->minmax_reservoir;
   lcg=12345u+(unsigned)(rate*7+ch);
@@ -104,11 +113,12 @@ static void run_case(long idx,long rate,int ch,long tmplk,long maxk,long mink,lo
       vorbis_bitrate_addblock(&vb);
       while(vorbis_bitrate_flushpacket(&vd,&op)){
         if(n>=MAXP){ viol="too_many_packets"; break; }
-        choice=bm->choice;
+        choice=bm->managed?bm->choice:NB/2;
         P[n].bits=op.bytes*8; P[n].W=vb.W; P[n].g=op.granulepos; P[n].res=bm->minmax_reservoir;
         if(vb.W)nlong++; else nshort++;
         if(P[n].res<minres)minres=P[n].res; if(P[n].res>maxres)maxres=P[n].res;
         if(P[n].res==0)hit0++; if(P[n].res==R)hitfull++;
+        if(notinst){ if(op.e_o_s)eos=1; n++; continue; }       /* internal oracles presuppose installed == configured */
         if(choice<0||choice>=NB){ viol="choice_out_of_range"; sprintf(det,"packet %d choice=%d",n,choice); break; }
         if(choice<NB/2)limited++;
         allowance=(vb.W?bm->max_bitsper*spl:bm->max_bitsper)+(R-res0);
@@ -130,8 +140,8 @@ static void run_case(long idx,long rate,int ch,long tmplk,long maxk,long mink,lo
     /* granule model: g_k = sum_{t=1..k}(bs[W_{t-1}]+bs[W_t])/4 for every non-final packet */
     long G=0; long long qmax,qmin,tr_max,tr_min,base; double worstp=-1e18,worstm=-1e18; int wi=0,wj=0,wmi=0,wmj=0;
     long Mq=(long)rint(1.*maxr*hs/rate),mq=(long)rint(1.*minr*hs/rate);
-    if(Mq!=(bm->max_bitsper>0?bm->max_bitsper:0)&&maxr>0){ printf("%ld cfgerr Mq=%ld bm=%ld\n",idx,Mq,bm->max_bitsper); goto done; }
-    if(mq!=(bm->min_bitsper>0?bm->min_bitsper:0)&&minr>0){ printf("%ld cfgerr mq=%ld bm=%ld\n",idx,mq,bm->min_bitsper); goto done; }
+    if(!notinst&&Mq!=(bm->max_bitsper>0?bm->max_bitsper:0)&&maxr>0){ printf("%ld cfgerr Mq=%ld bm=%ld\n",idx,Mq,bm->max_bitsper); goto done; }
+    if(!notinst&&mq!=(bm->min_bitsper>0?bm->min_bitsper:0)&&minr>0){ printf("%ld cfgerr mq=%ld bm=%ld\n",idx,mq,bm->min_bitsper); goto done; }
     for(i=0;i<n;i++){
       if(i)G+=(bs[P[i-1].W]+bs[P[i].W])/4;
       if(i<n-1&&P[i].g!=G){ printf("%ld cfgerr granule_model packet=%d g=%ld model=%ld\n",idx,i,P[i].g,G); goto done; }
@@ -166,6 +176,10 @@ static void run_case(long idx,long rate,int ch,long tmplk,long maxk,long mink,lo
           }
         }
       }
+    }
+    if(notinst){
+      printf("%ld VIOL n=%d bs=%ld/%ld R=%ld bias=%g kind=limit_not_installed_%s detail=\"%s\" run_oracle=%s run_detail=\"%s\"\n",idx,n,bs[0],bs[1],R,bias,notinst,ndet,viol?viol:"none",det);
+      goto done;
     }
     if(!viol){
       printf("%ld ok n=%d short=%ld long=%ld bs=%ld/%ld R=%ld bias=%g Mq=%ld mq=%ld worstp=%.1f@%d-%d worstm=%.1f@%d-%d minres=%ld maxres=%ld trunc=%ld pad=%ld nonmono=%ld hit0=%ld hitfull=%ld limited=%ld runs=%ld\n",
